@@ -1,0 +1,120 @@
+// Copyright 2026 foyer Project Authors
+//
+// Licensed under the Apache License, Version 2.0 (the "License");
+// you may not use this file except in compliance with the License.
+// You may obtain a copy of the License at
+//
+//     http://www.apache.org/licenses/LICENSE-2.0
+//
+// Unless required by applicable law or agreed to in writing, software
+// distributed under the License is distributed on an "AS IS" BASIS,
+// WITHOUT WARRANTIES OR CONDITIONS OF ANY KIND, either express or implied.
+// See the License for the specific language governing permissions and
+// limitations under the License.
+
+//! Verification-only replacement of `spawn.rs`. Compiled only with `--cfg foyer_verif`.
+//!
+//! Same public shape as the tokio-backed module (`Spawner::{spawn, spawn_blocking, current}`, `SpawnHandle`), but
+//! tasks run on the executor of the controlled scheduler. The extra `verif_*` functions emulate what a real runtime
+//! can do to foyer's tasks: cancel one of them, or shut down and cancel all of them.
+
+use std::{cell::RefCell, fmt::Debug};
+
+use crate::error::{Error, ErrorKind, Result};
+
+/// A wrapper for a join handle of the simulated executor.
+#[derive(Debug)]
+pub struct SpawnHandle<T> {
+    inner: shuttle::future::JoinHandle<T>,
+}
+
+impl<T> std::future::Future for SpawnHandle<T> {
+    type Output = Result<T>;
+
+    fn poll(mut self: std::pin::Pin<&mut Self>, cx: &mut std::task::Context<'_>) -> std::task::Poll<Self::Output> {
+        match std::pin::Pin::new(&mut self.inner).poll(cx) {
+            std::task::Poll::Ready(Ok(v)) => std::task::Poll::Ready(Ok(v)),
+            std::task::Poll::Ready(Err(e)) => {
+                std::task::Poll::Ready(Err(Error::new(ErrorKind::Join, "sim join error").with_source(e)))
+            }
+            std::task::Poll::Pending => std::task::Poll::Pending,
+        }
+    }
+}
+
+std::thread_local! {
+    static TASKS: RefCell<Vec<shuttle::future::AbortHandle>> = const { RefCell::new(Vec::new()) };
+}
+
+/// Simulated spawner.
+#[derive(Debug, Clone)]
+pub enum Spawner {
+    /// The one simulated runtime.
+    Sim,
+}
+
+impl Spawner {
+    /// Spawn a future onto the simulated executor.
+    pub fn spawn<F>(&self, future: F) -> SpawnHandle<<F as std::future::Future>::Output>
+    where
+        F: std::future::Future + Send + 'static,
+        F::Output: Send + 'static,
+    {
+        let inner = shuttle::future::spawn(future);
+        TASKS.with(|t| t.borrow_mut().push(inner.abort_handle()));
+        crate::verif::event("spawn", 0, 0);
+        SpawnHandle { inner }
+    }
+
+    /// Run a blocking closure as a task of the simulated executor.
+    pub fn spawn_blocking<F, R>(&self, func: F) -> SpawnHandle<R>
+    where
+        F: FnOnce() -> R + Send + 'static,
+        R: Send + 'static,
+    {
+        self.spawn(async move { func() })
+    }
+
+    /// Get the current spawner.
+    pub fn current() -> Self {
+        Spawner::Sim
+    }
+
+    /// Number of tasks spawned so far in this execution; task indices are spawn order.
+    pub fn verif_task_count() -> usize {
+        TASKS.with(|t| t.borrow().len())
+    }
+
+    /// Cancel the task with the given spawn index (what `JoinHandle::abort` / runtime shutdown does to it).
+    pub fn verif_abort(index: usize) {
+        TASKS.with(|t| {
+            if let Some(h) = t.borrow().get(index) {
+                h.abort()
+            }
+        });
+    }
+
+    /// Whether the task with the given spawn index has finished.
+    pub fn verif_is_finished(index: usize) -> bool {
+        TASKS.with(|t| t.borrow().get(index).map(|h| h.is_finished()).unwrap_or(true))
+    }
+
+    /// Cancel every task spawned so far (runtime shutdown).
+    pub fn verif_abort_all() {
+        TASKS.with(|t| {
+            for h in t.borrow().iter() {
+                h.abort();
+            }
+        });
+    }
+
+    /// Whether every task spawned so far has finished.
+    pub fn verif_all_finished() -> bool {
+        TASKS.with(|t| t.borrow().iter().all(|h| h.is_finished()))
+    }
+
+    /// Forget registered tasks (start of a new execution).
+    pub fn verif_reset() {
+        TASKS.with(|t| t.borrow_mut().clear());
+    }
+}
